@@ -53,6 +53,9 @@ type RaceSpec struct {
 	Bcast   int    `json:"bcast,omitempty"`   // values 1..Bcast broadcast concurrently by one goroutine; one earlier subscriber
 	Big     bool   `json:"big,omitempty"`     // 16 KiB element type
 	Closers int    `json:"closers,omitempty"` // concurrent Close calls (default 1)
+	Park    int    `json:"park,omitempty"`    // closes-overlap-parked: forwarders held at the hook with a value in hand (0 = all N)
+	Pre     int    `json:"pre,omitempty"`     // closes-overlap-*: values broadcast (sequentially, every call returned) before Close is called
+	Stagger bool   `json:"stagger,omitempty"` // closes-overlap-*: the first Close call gets a head start, the others arrive while it is pending
 	Trials  int    `json:"trials"`
 	Seed    uint64 `json:"seed,omitempty"`
 }
@@ -195,7 +198,7 @@ func raceTrial[T any](sp RaceSpec, mk func(int) T, val func(T) int, r *lib.Rand)
 	hit := func(s string) { out.hits = append(out.hits, s) }
 	base, cancel := context.WithCancel(context.Background())
 	defer cancel()
-	capn := sp.Bcast + 6
+	capn := sp.Bcast + sp.Pre + 6
 	mkChans := func(k int) (raw []chan T, snd []chan<- T) {
 		for i := 0; i < k; i++ {
 			c := make(chan T, capn)
@@ -229,10 +232,42 @@ func raceTrial[T any](sp RaceSpec, mk func(int) T, val func(T) int, r *lib.Rand)
 	var pending []*pcall
 	track := func(c *pcall) *pcall { pending = append(pending, c); return c }
 	closeCalled := false
+	// The clause "nothing is delivered after Close returns" holds for EVERY Close call, so it is
+	// judged against the earliest return: the goroutine of the first Close call to return records,
+	// right after the return, how many values every subscriber channel holds (nobody receives from
+	// these channels before the final check, so a fill level can only grow by a delivery).
+	var all []chan T // every subscriber channel of this trial (set below, before any Close is called)
+	var firstOnce sync.Once
+	var firstMu sync.Mutex
+	var firstLens []int
+	firstTag := ""
+	firstRet := make(chan struct{})
+	closeReturned := func(tag string) {
+		firstOnce.Do(func() {
+			lens := make([]int, len(all))
+			for i, c := range all {
+				lens[i] = len(c)
+			}
+			firstMu.Lock()
+			firstLens, firstTag = lens, tag
+			firstMu.Unlock()
+			close(firstRet)
+		})
+	}
+	closeFn := func(tag string, before func()) func() {
+		return func() {
+			if before != nil {
+				before()
+			}
+			b.Close()
+			closeReturned(tag)
+		}
+	}
 	doClose := func(tag string) *pcall {
 		closeCalled = true
-		return track(w.goCall("Close#"+tag, func() { b.Close() }))
+		return track(w.goCall("Close#"+tag, closeFn(tag, nil)))
 	}
+	parkedAtFirstReturn := int64(0) // closes-overlap-parked: forwarders still held when a Close call returned
 	stuckNow := func(names []string, context string) {
 		out.stuck = names
 		out.dump = broadcasterDump()
@@ -260,6 +295,11 @@ func raceTrial[T any](sp RaceSpec, mk func(int) T, val func(T) int, r *lib.Rand)
 		}))
 	}
 
+	all = append([]chan T(nil), raw...)
+	if earlier != nil {
+		all = append(all, earlier)
+	}
+
 	ctx := newCtx(sp.K)
 	desc := fmt.Sprintf("Subscribe(ctx, %d channels)", n)
 	startedAtClose := int64(-1)
@@ -283,6 +323,9 @@ func raceTrial[T any](sp RaceSpec, mk func(int) T, val func(T) int, r *lib.Rand)
 		}
 		startedAtClose = ctx.calls.Load()
 		cl := doClose("0")
+		for k := 1; k < sp.Closers; k++ {
+			doClose(fmt.Sprint(k))
+		}
 		select {
 		case <-sub.done:
 		case <-time.After(raceDeadline):
@@ -302,7 +345,7 @@ func raceTrial[T any](sp RaceSpec, mk func(int) T, val func(T) int, r *lib.Rand)
 		start := make(chan struct{})
 		track(w.goCall(desc, func() { <-start; spin(-d); b.Subscribe(ctx, snd...) }))
 		closeCalled = true
-		track(w.goCall("Close#0", func() { <-start; spin(d); b.Close() }))
+		track(w.goCall("Close#0", closeFn("0", func() { <-start; spin(d) })))
 		time.Sleep(50 * time.Microsecond)
 		close(start)
 	case "cancel-at-forwarder":
@@ -371,7 +414,7 @@ func raceTrial[T any](sp RaceSpec, mk func(int) T, val func(T) int, r *lib.Rand)
 		start := make(chan struct{})
 		track(w.goCall("Subscribe(ctx) with no channel, racing Close", func() { <-start; b.Subscribe(ctx) }))
 		closeCalled = true
-		track(w.goCall("Close#0", func() { <-start; b.Close() }))
+		track(w.goCall("Close#0", closeFn("0", func() { <-start })))
 		close(start)
 		if st := await(pending...); st != nil {
 			stuckNow(st, sp.Mode)
@@ -424,6 +467,94 @@ func raceTrial[T any](sp RaceSpec, mk func(int) T, val func(T) int, r *lib.Rand)
 			hit("close-returned-while-forwarder-parked")
 		}
 		close(gate)
+	case "closes-overlap-parked":
+		// Several Close calls overlap while forwarders hold a value.  Park (default: all N) forwarders
+		// are held at the hook after they took a value from their buffer (their subscriber channel has
+		// free buffer space, so the send they are about to offer can succeed); 2..4 Close calls are
+		// started (together, or the first one with a head start).  While a forwarder is held no Close
+		// call can have waited for it; if one returns all the same, the fill levels are recorded at
+		// that return and only then are the forwarders released: whatever arrives now was delivered
+		// after that Close call had returned.  If none returns (as it must be), the forwarders are
+		// released after a moment and every call must return.
+		gate := make(chan struct{})
+		release := sync.OnceFunc(func() { close(gate) })
+		defer release()
+		want := int64(sp.Park)
+		if want <= 0 || want > int64(n) {
+			want = int64(n)
+		}
+		var arrived, parked, freed atomic.Int64
+		verifhook.Set(func(name string, args ...any) {
+			if name == "broadcaster.forwarder.holding" && len(args) > 0 && args[0] == any(b) {
+				if arrived.Add(1) <= want {
+					parked.Add(1)
+					<-gate
+					freed.Add(1)
+				}
+			}
+		})
+		defer verifhook.Set(nil)
+		if st := await(w.goCall(desc, func() { b.Subscribe(ctx, snd...) })); st != nil {
+			stuckNow(st, sp.Mode)
+			return
+		}
+		for v := 0; v < max(1, sp.Pre); v++ {
+			if st := await(w.goCall(fmt.Sprintf("Broadcast(%d)", 900+v), bcastOne(900+v))); st != nil {
+				stuckNow(st, sp.Mode)
+				return
+			}
+		}
+		t0 := time.Now()
+		for parked.Load() < want && time.Since(t0) < 2*time.Second {
+			time.Sleep(100 * time.Microsecond)
+		}
+		if parked.Load() < want {
+			hit("not-all-forwarders-parked")
+		}
+		kc := max(2, sp.Closers)
+		doClose("0")
+		if sp.Stagger {
+			time.Sleep(300 * time.Microsecond) // the first call is pending (it waits for the held forwarders)
+		}
+		for k := 1; k < kc; k++ {
+			doClose(fmt.Sprint(k))
+		}
+		select {
+		case <-firstRet:
+			if held := parked.Load() - freed.Load(); held > 0 {
+				parkedAtFirstReturn = held
+				hit("close-returned-while-forwarder-parked")
+			}
+		case <-time.After(25 * time.Millisecond):
+			hit("no-close-returned-while-forwarders-parked")
+		}
+		release()
+	case "closes-overlap-volume":
+		// The same without hooks: many subscribers whose forwarders are busy moving the values just
+		// broadcast, then 2..4 Close calls at once; fill levels at the first return against the end.
+		if st := await(w.goCall(desc, func() { b.Subscribe(ctx, snd...) })); st != nil {
+			stuckNow(st, sp.Mode)
+			return
+		}
+		for v := 1; v <= max(1, sp.Pre); v++ {
+			if st := await(w.goCall(fmt.Sprintf("Broadcast(%d)", v), bcastOne(v))); st != nil {
+				stuckNow(st, sp.Mode)
+				return
+			}
+		}
+		kc := max(2, sp.Closers)
+		start := make(chan struct{})
+		closeCalled = true
+		for k := 0; k < kc; k++ {
+			k := k
+			track(w.goCall(fmt.Sprintf("Close#%d", k), closeFn(fmt.Sprint(k), func() {
+				<-start
+				if sp.Stagger && k > 0 {
+					spin(time.Duration(k) * 20 * time.Microsecond)
+				}
+			})))
+		}
+		close(start)
 	default:
 		add("panic", "unknown race mode %q", sp.Mode)
 		return
@@ -450,11 +581,32 @@ func raceTrial[T any](sp RaceSpec, mk func(int) T, val func(T) int, r *lib.Rand)
 		}
 	}
 
-	// Close has returned: from now on nothing may arrive.
-	all := raw
-	if earlier != nil {
-		all = append(append([]chan T(nil), raw...), earlier)
+	// Every Close call has returned.  Judged against the EARLIEST return: nothing may have arrived
+	// since the first Close call returned.
+	firstMu.Lock()
+	fl, ft := firstLens, firstTag
+	firstMu.Unlock()
+	if fl != nil {
+		hit("judged-against-earliest-close-return")
+		late, chans, ex := 0, 0, -1
+		for i, c := range all {
+			if d := len(c) - fl[i]; d > 0 {
+				late += d
+				chans++
+				if ex < 0 {
+					ex = i
+				}
+			}
+		}
+		if late > 0 {
+			how := ""
+			if parkedAtFirstReturn > 0 {
+				how = fmt.Sprintf("; that call returned while %d forwarder(s) were still held at the hook broadcaster.forwarder.holding with a value in hand and were released only afterwards", parkedAtFirstReturn)
+			}
+			add("delivery-after-close", "%s: %d value(s) arrived at %d subscriber channel(s) after Close#%s had returned (the first of the Close calls to return; the others were still running): e.g. channel %d held %d value(s) when it returned and %d once all had returned%s", sp.Mode, late, chans, ft, ex, fl[ex], len(all[ex]), how)
+		}
 	}
+	// … and from now on nothing may arrive either.
 	l1 := make([]int, len(all))
 	for i, c := range all {
 		l1[i] = len(c)
@@ -705,6 +857,9 @@ func runRaces(specs []RaceSpec, res *lib.Result) {
 		for _, fd := range rep.Findings {
 			res.Violate(fd.ID, fd.What, cr)
 		}
+		if os.Getenv("C11_VERBOSE") != "" {
+			fmt.Fprintf(os.Stderr, "race %s: trials=%d hits=%v findings=%d\n", key, rep.Trials, rep.Hits, len(rep.Findings))
+		}
 		if rep.Dirty {
 			stuckSeen++
 			child.stop()
@@ -774,6 +929,26 @@ func raceSpecs(tier string, seed uint64, search bool) []RaceSpec {
 	}
 	for _, n := range []int{2, 3, 8, 64} {
 		add(RaceSpec{Mode: "close-waits-parked", N: n, Trials: 2})
+	}
+	// several overlapping Close calls while forwarders hold a value (judged against the earliest
+	// return): k = 2, 3, 4 callers; 1 … all of the forwarders held; 1–3 values per subscriber (the
+	// held one plus values still in the buffer); all callers at once or the first with a head start
+	for i, n := range []int{1, 2, 3, 8, 64} {
+		k := 2 + i%3
+		add(RaceSpec{Mode: "closes-overlap-parked", N: n, Closers: k, Pre: 1, Trials: 3})
+		add(RaceSpec{Mode: "closes-overlap-parked", N: n, Closers: 2 + (i+1)%3, Pre: 3, Stagger: true, Trials: 2})
+		if n > 1 {
+			add(RaceSpec{Mode: "closes-overlap-parked", N: n, Park: 1, Closers: 2 + (i+2)%3, Pre: 2, Trials: 2})
+			add(RaceSpec{Mode: "closes-overlap-parked", N: n, Park: n / 2, Closers: k, Pre: 1, Stagger: true, Trials: 1})
+		}
+	}
+	for i, n := range []int{16, 1000, 4000} {
+		add(RaceSpec{Mode: "closes-overlap-volume", N: n, Closers: 2 + i%3, Pre: 3, Trials: 3})
+		add(RaceSpec{Mode: "closes-overlap-volume", N: n, Closers: 4 - i%3, Pre: 8, Stagger: true, Trials: 2})
+	}
+	add(RaceSpec{Mode: "closes-overlap-volume", N: 64, Closers: 2, Pre: 3, Big: true, Trials: 2})
+	for _, n := range []int{2, 64} {
+		add(RaceSpec{Mode: "close-parked-forwarder", N: n, K: n, Closers: 3, Trials: 2})
 	}
 	for _, n := range []int{0, 1, 2, 2000} {
 		add(RaceSpec{Mode: "after-close", N: n, Bcast: 2, Trials: 1})
